@@ -9,5 +9,6 @@ INVARIANT PinPolicy
 INVARIANT PinHeld
 INVARIANT Carried
 INVARIANT PubkeysWritten
+INVARIANT WriteError
 INVARIANT EmitB
 CHECK_DEADLOCK FALSE
